@@ -44,6 +44,16 @@ def load_known_findings():
     return findings
 
 
+def _die_with_parent():
+    """shards must not outlive the launcher (a killed or timed-out check would otherwise leave 16 busy interpreters)"""
+    try:
+        import ctypes
+        import signal
+        ctypes.CDLL('libc.so.6', use_errno=True).prctl(1, signal.SIGKILL)      # PR_SET_PDEATHSIG
+    except Exception:
+        pass
+
+
 def run_shard(pid, tier, seed, shard, nshards, outdir, timeout):
     out = os.path.join(outdir, 'shard%02d.json' % shard)
     cmd = [PY, '-B', '-m', 'vmon.shard', pid, '--tier', tier, '--seed', str(seed),
@@ -54,7 +64,7 @@ def run_shard(pid, tier, seed, shard, nshards, outdir, timeout):
     debug = bool(os.environ.get('VMON_DEBUG'))
     t0 = time.time()
     try:
-        p = subprocess.run(cmd, cwd=HERE, env=env, timeout=timeout,
+        p = subprocess.run(cmd, cwd=HERE, env=env, timeout=timeout, preexec_fn=_die_with_parent,
                            stdin=subprocess.DEVNULL,
                            stdout=None if debug else subprocess.DEVNULL,
                            stderr=None if debug else subprocess.DEVNULL)
